@@ -226,7 +226,9 @@ def corpus():
             Field('f64', 'double', '-0.25'), Field('c', 'Color', 'Green'), Field('name', 'string', required=True),
             Field('vb', '[bool]'), Field('v8', '[ubyte]'), Field('v16', '[short]'), Field('v32', '[uint]'), Field('vf', '[float]'),
             Field('v64', '[long]'), Field('vd', '[double]'), Field('vc', '[Color]'), Field('p', 'Pt'), Field('vp', '[Pt]'),
-            Field('opt', 'int', optional=True), Field('optf', 'double', optional=True)]),
+            Field('opt', 'int', optional=True), Field('optf', 'double', optional=True),
+            # defaults that need all 17 significant digits / 9 for float
+            Field('f17', 'double', '0.30000000000000004'), Field('g17', 'double', '123456789.12345679'), Field('f9', 'float', '16777217.5')]),
     ], 'Sc', ident='SCAL'))
     # 2. structs with alignment 1..16 and force_align, nested structs, fixed arrays, struct roots
     S.append(Schema('bstru', [
@@ -238,10 +240,12 @@ def corpus():
         Struct('A16', [('x', 'int'), ('y', 'double')], force_align=16),
         Struct('Arr', [('v', ('short', 3)), ('s', ('B3', 2)), ('z', 'ulong')]),
         Struct('A64', [('q', 'ubyte')], force_align=64),
+        Struct('A128', [('h', 'short')], force_align=128),
+        Struct('A256', [('w', 'int')], force_align=256),
         Table('St', [
             Field('b1', 'B1'), Field('d8', 'D8'), Field('a16', 'A16'), Field('arr', 'Arr'), Field('vb3', '[B3]'),
             Field('va16', '[A16]'), Field('vd8', '[D8]'), Field('h2', 'H2'), Field('a64', 'A64'), Field('va64', '[A64]'),
-            Field('tag', 'ubyte', '9')]),
+            Field('tag', 'ubyte', '9'), Field('a128', 'A128'), Field('a256', 'A256'), Field('va256', '[A256]')]),
     ], 'St'))
     # 3. tables of tables, vectors of tables and strings, recursion, explicit permuted ids, deprecated field
     t3 = Table('Node', [
@@ -293,7 +297,7 @@ def corpus():
     #    (vtables of equal length and table size with equal leading entries: exercises the vtable cache comparison)
     S.append(Schema('bwide', [
         Table('W', [Field('f%d' % i, 'int', str(i)) for i in range(30)]),
-        Table('WR', [Field('ws', '[W]'), Field('tag', 'int')]),
+        Table('WR', [Field('ws', '[W]'), Field('tag', 'int'), Field('ws2', '[W]'), Field('names', '[string]'), Field('names2', '[string]')]),
     ], 'WR'))
     return S
 
@@ -309,7 +313,10 @@ def wide_value(s, rng, count=130):
         ids = list(range(14)) + list(pat) + [29]
         ws.append(Node('table', 'W', [(fields[i], Node('bytes', struct.pack('<i', rng.randint(-2 ** 31, 2 ** 31 - 1) if rng.random() < 0.5 else 1000 + i))) for i in ids]))
     wr = s.tables['WR'].fields
-    return Node('table', 'WR', [(wr[0], Node('offvec', ws)), (wr[1], Node('bytes', struct.pack('<i', len(ws))))])
+    names = [Node('str', b'n%d' % i + (b'\0x' if i % 7 == 0 else b'')) for i in range(rng.choice([65, 80, 100]))]
+    # ws / ws2 and names / names2 hold the same elements: built from ONE reference array (create_offset_vector called twice)
+    return Node('table', 'WR', [(wr[0], Node('offvec', ws)), (wr[1], Node('bytes', struct.pack('<i', len(ws)))), (wr[2], Node('offvec', list(ws))),
+                                (wr[3], Node('offvec', names)), (wr[4], Node('offvec', list(names)))])
 
 
 # ----------------------------------------------------------------------------------------- value trees
@@ -352,8 +359,9 @@ class ValueGen:
             return bytes(b)
         return self.scalar(t)
 
-    def count(self):
+    def count(self, big=False):
         r = self.rng
+        if big and r.random() < 0.04: return r.randint(65, 110)      # beyond 64 references (256 bytes)
         return r.choice([0, 1, 1, 2, 3, 3, 5, r.randint(0, int(12 * self.size) + 1)])
 
     def string(self):
@@ -379,7 +387,7 @@ class ValueGen:
                 return self.nested(nested, depth)
             e = t[1:-1]
             return self.shared(t, lambda: Node('vec', [self.inline(e) for _ in range(self.count())], e))
-        if k == 'strvec': return Node('offvec', [self.value('string', depth) for _ in range(self.count())])
+        if k == 'strvec': return Node('offvec', [self.value('string', depth) for _ in range(self.count(big=True))])
         if k == 'table': return self.shared(t, lambda: self.table(t, depth))
         if k == 'tabvec':
             n = self.count() if depth < self.maxdepth else 0
@@ -429,7 +437,8 @@ class ValueGen:
             v = Node('bytes', self.inline(root), root)
         self.pool.pop()
         opts = {'with_size': r.random() < 0.15, 'ident': r.choice([None, None, b'NSTD', b'\x01\x00\x00\x00']),
-                'block_align': r.choice([0, 0, 0, 8, 64]), 'style': 'se'}
+                'block_align': r.choice([0, 0, 0, 8, 64]), 'style': 'embed' if r.random() < getattr(self, 'embed_bias', 0.25) else 'se',
+                'embed_align': r.choice([0, 0, 8, 16, 32, 64, 128, 256])}
         return Node('nested', root, v, opts)
 
 
@@ -557,6 +566,8 @@ class ScriptGen:
         self.nreg = 0
         self.memo = [{}]
         self.opaque = set()      # registers whose value the implementation side cannot observe
+        self.spare = {}          # second vectors created from one reference array, waiting for a use
+        self.corder = None       # {table: add order inside the generated <T>_create} (create_order)
         self.gen_api = False     # use the generated builder api for tables (needs the per-schema glue harness)
         self.kinds = {}          # statistics: op style histogram
 
@@ -590,9 +601,20 @@ class ScriptGen:
         return self.new()
 
     def offvec(self, regs):
+        key = (len(self.memo), tuple(regs))
+        if regs and key in self.spare:
+            self.stat('O2-second-use')
+            return self.spare.pop(key)          # the second vector made from the same reference array
         st = self.pick(['c', 'd', 'p', 'a', 't'])
+        if len(regs) > 64 and (not self.styles or self.rng.random() < 0.6): st = '2'
         rs = ','.join(map(str, regs)) if regs else '-'
         self.h.append('O:%s:%s' % (st, rs)); self.m.append('O:' + rs); self.stat('O' + st)
+        if st == '2':
+            # create_offset_vector(B, refs, n) twice with the SAME (const) reference array: two vectors sharing their elements
+            self.m.append('O:' + rs)
+            r = self.new(2)
+            self.spare[key] = r + 1
+            return r
         return self.new()
 
     def uvec(self, elems):
@@ -632,9 +654,76 @@ class ScriptGen:
             return x == y          # -0.0 == 0.0, NaN != NaN
         return a == b
 
+    def table_create(self, n):
+        """<T>_create(B, every field as an argument): add calls in the order of the generated body (ct->ordered_members);
+        returns None when the value cannot be passed that way (an absent struct / optional scalar / offset field)"""
+        s = self.s
+        fields = s.tables[n.a].fields
+        order = (self.corder or {}).get(n.a)
+        if order is None or any(f.deprecated for f in fields): return None
+        present = {f.name: v for f, v in n.b}
+        for f in fields:
+            k = s.kind(f.type)
+            if f.name not in present and (k in ('struct', 'string', 'vec', 'strvec', 'table', 'tabvec') or (k == 'scalar' and f.optional)):
+                return None
+        self.stat('Tcreate')
+        args, regs, kept = [], {}, []
+        for f in fields:
+            k = s.kind(f.type)
+            v = present.get(f.name)
+            if k == 'scalar': args.append(hx(v.a if v is not None else s.default_bytes(f)))
+            elif k == 'struct': args.append(hx(v.a))
+            elif k == 'union':
+                r = None if (v is None or v.b is None) else self.node(v.b)
+                regs[f.name] = r
+                args.append('%d/%s' % (v.a if v is not None else 0, '-' if r is None else r))
+            elif k == 'uvec':
+                if v is None: args.append('-/-'); regs[f.name] = None
+                else:
+                    rv, rt = self.uvec([(c, None if e is None else self.node(e)) for c, e in v.a])
+                    regs[f.name] = (rt, rv); args.append('%d/%d' % (rt, rv))
+            else:
+                r = self.node(v); regs[f.name] = r; args.append(str(r))
+        byname = {f.name: f for f in fields}
+        madds = []
+        for fname, how in order:
+            f = byname[fname]; k = s.kind(f.type); v = present.get(fname)
+            if k == 'scalar':
+                val = v.a if v is not None else s.default_bytes(f)
+                if (not f.optional) and self.c_equal(f.type, val, s.default_bytes(f)):
+                    continue
+                sz, al = s.inline_size_align(f.type)
+                madds.append('i/%d/%d/%d/%s' % (f.id, sz, al, hx(val)))
+            elif k == 'struct':
+                sz, al = s.inline_size_align(f.type)
+                madds.append('i/%d/%d/%d/%s' % (f.id, sz, al, hx(v.a)))
+            elif k == 'union':
+                if v is None or v.a == 0: continue
+                if how == 'add_value': madds.append('o/%d/%d' % (f.id, regs[fname]))
+                elif how == 'add_type': madds.append('i/%d/1/1/%02x' % (f.id - 1, v.a))
+                else: madds.append('i/%d/1/1/%02x' % (f.id - 1, v.a)); madds.append('o/%d/%d' % (f.id, regs[fname]))
+            elif k == 'uvec':
+                if regs[fname] is None: continue
+                rt, rv = regs[fname]
+                madds.append('o/%d/%d' % (f.id - 1, rt)); madds.append('o/%d/%d' % (f.id, rv))
+            else:
+                madds.append('o/%d/%d' % (f.id, regs[fname]))
+        for f in fields:
+            v = present.get(f.name)
+            if v is None: continue
+            if s.kind(f.type) == 'scalar' and (not f.optional) and self.c_equal(f.type, v.a, s.default_bytes(f)): continue
+            kept.append((f, v))
+        n.b = kept
+        self.h.append('Gc:%d:%s' % (s.table_index[n.a], ','.join(args) if args else '-'))
+        self.m.append('T:' + (';'.join(madds) if madds else '-'))
+        return self.new()
+
     def table_gen(self, n):
         """the table through the GENERATED api: <T>_start, <T>_<f>_add / _force_add (default elision), <T>_end"""
         s, rng = self.s, self.rng
+        if rng.random() < 0.35:
+            r = self.table_create(n)
+            if r is not None: return r
         t = s.table_index[n.a]
         lf = s.live_fields(n.a)
         fidx = {f.name: j for j, f in enumerate(lf)}
@@ -798,6 +887,31 @@ class ScriptGen:
         flags = 2 if o['with_size'] else 0
         idh = hx(o['ident']) if o['ident'] else '-'
         idw = int.from_bytes(o['ident'], 'little') if o['ident'] else 0
+        if o['style'] == 'embed' and len(self.memo) < 2:
+            # inside the top-level buffer nest_id is 0 and flatcc_builder_embed_buffer takes that for "no parent buffer": it emits the
+            # bytes without the ubyte vector header (reported as a finding); embed_buffer is only usable from the second level on
+            o['style'] = 'se'
+        if o['style'] == 'embed':
+            # flatcc_builder_embed_buffer: the nested buffer exists as bytes (laid out by the independent encoder) and is embedded with
+            # its alignment (sometimes a larger one, up to 256)
+            def plain(x):
+                if x.kind == 'nested': x.c['with_size'] = False; x.c['style'] = 'se'; plain(x.b)
+                elif x.kind == 'table':
+                    for _, v in x.b: plain(v)
+                elif x.kind == 'offvec':
+                    for e in x.a: plain(e)
+                elif x.kind == 'union' and x.b is not None: plain(x.b)
+                elif x.kind == 'uvec':
+                    for _, e in x.a:
+                        if e is not None: plain(e)
+            plain(n.b)
+            o['with_size'] = False
+            enc = IndepEncoder(self.s, self.rng, extra_pad=False)
+            data = enc.buffer(n.a, n.b, False, None)
+            al = max(enc.maxal, o.get('embed_align', 0))
+            self.h.append('M:%d:%d:0:%s' % (o['block_align'], al, hx(data))); self.m.append('M:%d:%d:0:%s' % (o['block_align'], al, hx(data)))
+            self.stat('nested_embed')
+            return self.new()
         if o['style'] == 'c' and n.a in self.s.structs:
             # the generated <field>_create_as_root of a nested STRUCT root: create_buffer(B, fid, 0, <struct>, A, is_nested)
             r = self.node(n.b)
@@ -1389,7 +1503,7 @@ def gen_glue_build(s):
                 args.append('v%d' % j)
             elif k == 'uvec':
                 u = fl.type[1:-1]
-                w('      %s_union_vec_ref_t v%d; { char *sl = strchr(a[%d], \'/\'); *sl = 0; v%d.type = regs[atoi(a[%d])]; v%d.value = regs[atoi(sl + 1)]; }' % (u, j, j, j, j, j))
+                w('      %s_union_vec_ref_t v%d; { char *sl = strchr(a[%d], \'/\'); *sl = 0; v%d.type = a[%d][0] == \'-\' ? 0 : regs[atoi(a[%d])]; v%d.value = sl[1] == \'-\' ? 0 : regs[atoi(sl + 1)]; }' % (u, j, j, j, j, j, j))
                 args.append('v%d' % j)
             else:
                 w('      flatcc_builder_ref_t v%d = a[%d][0] == \'-\' ? 0 : regs[atoi(a[%d])];' % (j, j, j))
